@@ -22,8 +22,8 @@ DEFAULT = {"a": 101, "b": 102, "c": 103, "d": 104}
 INVALID = "x"
 POST_INIT_DELTA = 1000
 
-STYLES = ["raise", "y_msg", "y_alias", "y_index", "y_raw", "y_astr", "y_tuple", "y_int", "y_two", "y_two_k", "y_empty", "raise_children"]
-FSTYLES = ["raise", "y_msg", "y_raw", "y_astr", "y_tuple", "y_two", "y_two_k"]  # styles usable by function validators on a field value
+STYLES = ["raise", "y_msg", "y_alias", "y_index", "y_raw", "y_astr", "y_tuple", "y_int", "y_two", "y_two_k", "y_deep_then_bare", "y_bare_twice", "y_empty", "raise_children"]
+FSTYLES = ["raise", "y_msg", "y_raw", "y_astr", "y_tuple", "y_two", "y_two_k", "y_deep_then_bare", "y_bare_twice"]  # styles usable by function validators on a field value
 VIAS = ["direct", "method", "property", "method2"]
 
 ALIASERS = {None: None, "upper": str.upper, "prefix": lambda s: "p_" + s}
@@ -76,6 +76,10 @@ def error_paths(style, name, pf_alias, al):
         return [((), m + ":1"), (("k",), m + ":2")]
     if style == "y_two_k":
         return [(("k", 0), m + ":1"), (("k", 1), m + ":2")]
+    if style == "y_deep_then_bare":  # a located error below a key, then one at that very key given as a bare path
+        return [(("k", 0), m + ":1"), (("k",), m + ":2")]
+    if style == "y_bare_twice":
+        return [(("k",), m + ":1"), (("k",), m + ":2")]
     if style == "raise_children":
         return [((), m), (("k",), m + ":c")]
     raise ValueError(style)
@@ -96,6 +100,8 @@ def _fail_code(style, name, selfname, pf):
         "y_int": [f"yield 3, {m!r}"],
         "y_two": [f"yield {m + ':1'!r}", f"yield 'k', {m + ':2'!r}"],
         "y_two_k": [f"yield ('k', 0), {m + ':1'!r}", f"yield ['k', 1], {m + ':2'!r}"],
+        "y_deep_then_bare": [f"yield ('k', 0), {m + ':1'!r}", f"yield 'k', {m + ':2'!r}"],
+        "y_bare_twice": [f"yield 'k', {m + ':1'!r}", f"yield 'k', {m + ':2'!r}"],
         "raise_children": [f"raise ValidationError([{m!r}], {{'k': ValidationError([{m + ':c'!r}])}})"],
     }[style]
     return body
